@@ -1,6 +1,6 @@
 \* C03 / Pipeline, REPAIRED design, thorough tier: THREE concurrent requests,
 \* 2 extension lists x 4 caches x suggestions on/off x 6 request classes.
-\* Measured: 793 368 distinct / 2 288 032 generated states, depth 22, 60-90 s (4 workers); I1-I5 hold.
+\* Measured: 793 368 distinct / 2 288 032 generated states, depth 22, 60-90 s (4 workers); I0-I7 hold.
 SPECIFICATION MCSpec
 CONSTANTS
   Reqs = {1, 2, 3}
